@@ -27,10 +27,11 @@ CONFIG = {'gen': ['SmbCommands'],
                'recorded findings; param_block_eq_spec, data_block_eq_spec for WordCount/Words/ByteCount(LE)/Bytes; andx_default_block, '
                'andx_block_eq_spec for the AndX block: command, reserved, offset as MS-CIFS has them unless the two bytes of the offset '
                'differ — the offset goes out big-endian, finding be:AndXOffset, andx_offset_big_endian_counterexample, '
-               'andx_offset_differs_iff). The kernel decides Conforms on the 115 regenerated programs: all conform except WriteRequest '
-               '(data buffer ahead of the parameter block; non_conforming_commands, core_non_conforming_commands); no structure drops a '
-               'declared field any more (commands_dropping_fields = []: the six that did were repaired in the repository, '
-               'fixes/C04-*.diff); of the fourteen programs with loops, conditional fields or literal bytes '
+               'andx_offset_differs_iff). The kernel decides Conforms on the 115 regenerated programs: all conform '
+               '(non_conforming_commands, core_non_conforming_commands are empty: WriteRequest, which put its data buffer ahead of the '
+               'parameter block, was repaired, fixes/C04-writerequest-data-block.diff, and is covered by conforms_sound); no structure '
+               'drops a declared field any more (commands_dropping_fields = []: the six that did were repaired in the repository, '
+               'fixes/C04-*.diff); of the thirteen programs with loops, conditional fields or literal bytes '
                '(commands_outside_straight_line) eight pass ConformsLists (lists_conforming_commands: FindResponse, FindUniqueResponse, '
                'LockAndReadResponse, LockingAndxRequest, OpenAndxRequest, OpenAndxResponse, QueryInformationResponse, TransactionRequest) '
                'and four ConformsOptional (optional_conforming_commands: ReadRawRequest, WriteAndCloseRequest, WriteAndxRequest, '
@@ -38,8 +39,8 @@ CONFIG = {'gen': ['SmbCommands'],
                'std_nested_list_conforms, list_element_types) prove, for all field values, that the emitted bytes are those of '
                "Spec.Cifs.encodeLists (an array is the concatenation of its elements' encodings) / Spec.Cifs.encodeOptional (short form "
                'for a zero field, long form otherwise); NegotiateResponse (the literal two-byte terminators of its two null-terminated '
-               'strings, of which the encoders over the declared field list have no notion) and WriteRequest stay outside '
-               '(commands_outside_proved_fragments) and are covered by the differential run only. Nested types: FILETIME, SMB_TIME, '
+               'strings, of which the encoders over the declared field list have no notion) stays outside '
+               '(commands_outside_proved_fragments) and is covered by the differential run only. Nested types: FILETIME, SMB_TIME, '
                'SMB_DATE, SMB_NMPIPE_STATUS, LOCKING_ANDX_RANGE64, OEM_STRING and the dialect list conform for all values '
                '(std_nested_conforms, dialects_eq_spec), SMB_STRING for formats 1, 2, 4, 5 (smb_string_conforms); SMB_FILE_ATTRIBUTES is '
                'big-endian and SMB_STRING format 0x03 carries a length word (file_attributes_big_endian_counterexample, '
